@@ -363,7 +363,9 @@ func c04Grammars() []*gen.Grammar {
 		Atoms: gen.Atoms(".a", ".[0]", ".a.b", ".a[0]", ".[1:2]", `.["a"]`, ".a?", "(.a)", ".[-1]", `.a."b"`, "1", ".", "[1]", "{}", "(1,2)", "empty", "$x", ".[$k]", ".[1:]", ".[:-1]",
 			".a[1:][0]", `."a"`, ".[1.5]", "(.a,.b)", ".[]", "..", `.["a","b"]`,
 			// constant paths on both sides of a pipe, a binding, an alternative or a conditional
-			"(.a | .b)", "(.a | .[0])", "(.a as $y | .b)", "(.a as [$y] | .b)", "(. as $y | .a)", "(.a as {b: $y} | .[0])", "(.a // .b)", "(if . then .a else .b end)", "(.a | .b?)", "(.a as $y | .a.b)", "(.[0] as $y | .[1])", "(.a | first(.b))", "(1 as $y | .a)"),
+			"(.a | .b)", "(.a | .[0])", "(.a as $y | .b)", "(.a as [$y] | .b)", "(. as $y | .a)", "(.a as {b: $y} | .[0])", "(.a // .b)", "(if . then .a else .b end)", "(.a | .b?)", "(.a as $y | .a.b)", "(.[0] as $y | .[1])", "(.a | first(.b))", "(1 as $y | .a)",
+			// literal slices and indices on computed values: an invalid path in every configuration
+			`("ba" | .[1:])`, "([.[]?] | .[1:2])", "(map_values(.) | .[0:1])", "([1,2] | .[0])", `("ba" | .[:1] | .[0:1])`, "(tojson | .[1:])"),
 		Forms: []gen.Form{
 			gen.Update("="), gen.Update("|="), gen.Update("+="), gen.Update("//="), gen.T("del", "del(%0)", 1), gen.T("path", "[path(%0)]", 1), gen.Pipe,
 			gen.T("paren", "(%0)", 1), gen.T("field", "%0.c", 1, term), gen.T("idx", "%0[1]", 1, term), gen.T("opt", "%0?", 1, term), gen.T("try", "try %0 catch .", 1, term),
